@@ -1,79 +1,468 @@
+// configquery drives the real configuration-lookup code of AliECS for property C20:
+//
+//	configuration/componentcfg: NewQuery, NewEntriesQuery, NewQueryParameters, Query.Path/Raw/AbsoluteRaw
+//	apricot/local:              NewService("file://...yaml"), ResolveComponentQuery, GetComponentConfiguration,
+//	                            GetAndProcessComponentConfiguration
+//
+// Input: the NDJSON cases enumerated by TLC from spec/ConfigQueryGen.tla (and spec/ConfigQueryEdit.tla).
+// Output: one NDJSON trace line per case with the input and everything the real code returned; the expected
+// values are NOT computed here - spec/ConfigQueryTrace.tla computes them from the TLA+ definitions.
+//
+// Strings are sequences of tokens; tokChr is the fixed token -> characters table (the same as Chr in
+// spec/ConfigQuery.tla).  Its side conditions (prefix-free; which token strings are run type names, booleans,
+// "process") are checked against the real enum / strconv.ParseBool at start-up.
 package main
 
 import (
+	"bufio"
+	"bytes"
+	"encoding/json"
+	"flag"
 	"fmt"
+	"io"
 	"os"
+	"path/filepath"
+	"sort"
+	"strconv"
+	"strings"
+
+	"github.com/sirupsen/logrus"
 
 	"github.com/AliceO2Group/Control/apricot/local"
+	apricotpb "github.com/AliceO2Group/Control/apricot/protos"
 	"github.com/AliceO2Group/Control/configuration/componentcfg"
+
+	"verif/harness/vtrace"
 )
 
-func main() {
-	yaml := `o2:
-  components:
-    c:
-      PHYSICS:
-        r:
-          e: "lit {{ v }} end"
-          q: "{{ v }}|{{ w }}|{% include \"e\" %}"
-          m: "{% include \"missing\" %}"
-          s: "{{ strings }}"
-          sub:
-            e: "nested {% include \"f\" %}"
-            f: "F{{ v }}"
-          "": "emptykey"
-          n: 123
-      ANY:
-        any:
-          e: "anyany"
-`
-	p := "/tmp/c20exp.yaml"
-	os.WriteFile(p, []byte(yaml), 0644)
-	svc, err := local.NewService("file://" + p)
-	fmt.Println("svc", svc != nil, err)
-	for _, s := range []string{"c/PHYSICS/r/e", "c/PHYSICS/r/sub", "c/PHYSICS/r/sub/e", "c/PHYSICS/r/e/", "c/PHYSICS/r//e", "c/PHYSICS/r//", "c/PHYSICS/r/", "c/PHYSICS/x/e", "c/PHYSICS/r/n", "c/PHYSICS/r/e/x", " c/PHYSICS/r/e\n", "c/NULL/r/e", "c/PHYSICS/r/e\nx"} {
-		q, err := componentcfg.NewQuery(s)
-		fmt.Printf("%q -> %+v err=%v\n", s, q, err)
+var tokChr = map[string]string{
+	"a": "a", "b": "b", "p": "process", "t": "true",
+	"X": "X", "7": "7", "0": "0", "-": "-", "_": "_",
+	"P": "PHYSICS", "A": "ANY",
+	"/": "/", " ": " ", "T": "\t", "N": "\n",
+	",": ",", "Q": "\"", "[": "[", "]": "]",
+	"=": "=", "&": "&", "@": "@", ".": ".",
+}
+
+// tokens of the class [A-Z0-9-_] (candidates for a run type segment) and of the value class
+var uwordToks = []string{"X", "7", "0", "-", "_", "P", "A"}
+var vwordToks = []string{"a", "b", "p", "t", "X", "7", "0", "-", "_", "P", "A", ",", "Q", "[", "]"}
+
+var litStr = map[string]string{"L": "lit ", "J": "x=\n "}
+var valStr = map[string]string{"V": "val", "W": "w w", "E": "", "B": "{{ w }}", "Q": "[\"a\",\"b\"]", "H": "<a&b>'"}
+
+const siblingName = "sib"
+
+func fatal(f string, a ...interface{}) {
+	fmt.Fprintf(os.Stderr, "configquery: "+f+"\n", a...)
+	os.Exit(3)
+}
+
+func checkTable() {
+	// prefix-free => every string has at most one token decomposition
+	for k1, s1 := range tokChr {
+		for k2, s2 := range tokChr {
+			if k1 != k2 && strings.HasPrefix(s2, s1) {
+				fatal("token table not prefix-free: %q (%s) is a prefix of %q (%s)", s1, k1, s2, k2)
+			}
+		}
+	}
+	// IsEnum(seg) == seg is the single token P or A: no other sequence of [A-Z0-9-_] tokens spells a RunType name
+	for name := range apricotpb.RunType_value {
+		if dec := decompose(name, uwordToks); dec != nil {
+			if !(len(dec) == 1 && (dec[0] == "P" || dec[0] == "A")) {
+				fatal("run type name %q is spelled by tokens %v", name, dec)
+			}
+		}
+	}
+	for _, t := range []string{"P", "A"} {
+		if _, ok := apricotpb.RunType_value[tokChr[t]]; !ok {
+			fatal("token %s (%s) is not a run type name", t, tokChr[t])
+		}
+	}
+	// IsBool(seg) == seg is the single token t or 0; the key "process" is the single token p
+	var rec func(prefix []string, depth int)
+	rec = func(prefix []string, depth int) {
+		if len(prefix) > 0 {
+			s := ""
+			for _, t := range prefix {
+				s += tokChr[t]
+			}
+			_, err := strconv.ParseBool(s)
+			isBoolTok := len(prefix) == 1 && (prefix[0] == "t" || prefix[0] == "0")
+			if (err == nil) != isBoolTok {
+				fatal("ParseBool(%q) from tokens %v contradicts the table", s, prefix)
+			}
+			if (s == "process") != (len(prefix) == 1 && prefix[0] == "p") {
+				fatal("\"process\" spelled by tokens %v", prefix)
+			}
+		}
+		if depth == 0 {
+			return
+		}
+		for _, t := range vwordToks {
+			rec(append(append([]string{}, prefix...), t), depth-1)
+		}
+	}
+	rec(nil, 3)
+	if b, _ := strconv.ParseBool("true"); !b {
+		fatal("ParseBool(true)")
+	}
+	if b, _ := strconv.ParseBool("0"); b {
+		fatal("ParseBool(0)")
+	}
+}
+
+// decompose s into the given tokens' strings (nil if impossible); the table is prefix-free so greedy works
+func decompose(s string, toks []string) []string {
+	out := []string{}
+	for len(s) > 0 {
+		found := false
+		for _, t := range toks {
+			if strings.HasPrefix(s, tokChr[t]) {
+				out = append(out, t)
+				s = s[len(tokChr[t]):]
+				found = true
+				break
+			}
+		}
+		if !found {
+			return nil
+		}
+	}
+	return out
+}
+
+func str(toks []string) string {
+	var b strings.Builder
+	for _, t := range toks {
+		c, ok := tokChr[t]
+		if !ok {
+			fatal("unknown token %q", t)
+		}
+		b.WriteString(c)
+	}
+	return b.String()
+}
+
+type part struct {
+	K string `json:"k"`
+	X string `json:"x"`
+}
+
+type qrec struct {
+	Comp  string `json:"comp"`
+	Rt    string `json:"rt"`
+	Role  string `json:"role"`
+	Entry string `json:"entry"`
+}
+
+type tcase struct {
+	K      string     `json:"k"`
+	S      []string   `json:"s"`
+	Q      *qrec      `json:"q"`
+	B      [][]string `json:"B"`
+	Parts  []part     `json:"parts"`
+	Sib    []part     `json:"sib"`
+	HasSib bool       `json:"hasSib"`
+	Vars   [][]string `json:"vars"`
+	Corner string     `json:"corner"`
+}
+
+type M = map[string]interface{}
+
+func doStr(rec *vtrace.Recorder, scn int, c *tcase) {
+	s := str(c.S)
+	full := M{"ok": false, "comp": "", "rt": "", "role": "", "entry": "", "raw": "", "path": "", "abs": ""}
+	if q, err := componentcfg.NewQuery(s); err == nil {
+		full = M{"ok": true, "comp": q.Component, "rt": apricotpb.RunType_name[int32(q.RunType)], "role": q.RoleName,
+			"entry": q.EntryKey, "raw": q.Raw(), "path": q.Path(), "abs": q.AbsoluteRaw()}
+	}
+	ent := M{"ok": false, "comp": "", "rt": "", "role": ""}
+	if q, err := componentcfg.NewEntriesQuery(s); err == nil {
+		ent = M{"ok": true, "comp": q.Component, "rt": apricotpb.RunType_name[int32(q.RunType)], "role": q.RoleName}
+	}
+	rec.Emit("Str", "scn", scn, "s", c.S, "str", s, "full", full, "ent", ent,
+		"valid", M{"full": componentcfg.IsStringValidQueryPath(s), "ent": componentcfg.IsStringValidEntriesQueryPath(s)})
+}
+
+func doPar(rec *vtrace.Recorder, scn int, c *tcase) {
+	s := str(c.S)
+	res := M{"ok": false, "proc": false, "vars": [][]string{}}
+	if p, err := componentcfg.NewQueryParameters(s); err == nil {
+		keys := make([]string, 0, len(p.VarStack))
+		for k := range p.VarStack {
+			keys = append(keys, k)
+		}
+		sort.Strings(keys)
+		vars := make([][]string, 0, len(keys))
+		for _, k := range keys {
+			vars = append(vars, []string{k, p.VarStack[k]})
+		}
+		res = M{"ok": true, "proc": p.ProcessTemplates, "vars": vars}
+	}
+	rec.Emit("Par", "scn", scn, "s", c.S, "str", s, "res", res)
+}
+
+// backend file: o2/components/<component>/<RUNTYPE>/<role>/<entry...> = payload (JSON is YAML flow syntax)
+type backend struct {
+	root M
+	path string
+}
+
+func newBackend(path string) *backend { return &backend{root: M{}, path: path} }
+
+func (b *backend) put(key string, payload string) {
+	segs := strings.Split("o2/components/"+key, "/")
+	m := b.root
+	for i, s := range segs {
+		if i == len(segs)-1 {
+			m[s] = payload
+			return
+		}
+		n, ok := m[s].(M)
+		if !ok {
+			n = M{}
+			m[s] = n
+		}
+		m = n
+	}
+}
+
+func (b *backend) service() *local.Service {
+	var buf bytes.Buffer
+	enc := json.NewEncoder(&buf)
+	enc.SetEscapeHTML(false)
+	if err := enc.Encode(b.root); err != nil {
+		fatal("encode backend: %v", err)
+	}
+	if err := os.WriteFile(b.path, buf.Bytes(), 0o644); err != nil {
+		fatal("write backend: %v", err)
+	}
+	svc, err := local.NewService("file://" + b.path)
+	if err != nil || svc == nil {
+		fatal("NewService(file://%s): %v", b.path, err)
+	}
+	return svc
+}
+
+func pathOf(comp, rt, role, entry string) string { return comp + "/" + rt + "/" + role + "/" + entry }
+
+func mkQuery(q *qrec) *componentcfg.Query {
+	v, ok := apricotpb.RunType_value[q.Rt]
+	if !ok {
+		fatal("unknown run type %q in case", q.Rt)
+	}
+	return &componentcfg.Query{Component: q.Comp, RunType: apricotpb.RunType(v), RoleName: q.Role, EntryKey: q.Entry}
+}
+
+func got(payload string, err error) M {
+	if err != nil {
+		return M{"ok": false, "payload": ""}
+	}
+	return M{"ok": true, "payload": payload}
+}
+
+var resRT = []string{"PHYSICS", "TECHNICAL", "ANY"}
+var resRoles = []string{"r", "s", "any"}
+
+func doRes(rec *vtrace.Recorder, scn int, c *tcase, file string) {
+	be := newBackend(file)
+	present := map[string]bool{}
+	for _, k := range c.B {
+		present[k[0]+"/"+k[1]] = true
+		be.put(pathOf(c.Q.Comp, k[0], k[1], c.Q.Entry), "cfg:"+pathOf(c.Q.Comp, k[0], k[1], c.Q.Entry))
+	}
+	// distractors: another entry and another component exist exactly where the queried entry does NOT
+	for _, rt := range resRT {
+		for _, ro := range resRoles {
+			if !present[rt+"/"+ro] {
+				be.put(pathOf(c.Q.Comp, rt, ro, "other"), "cfg:"+pathOf(c.Q.Comp, rt, ro, "other"))
+				be.put(pathOf("d", rt, ro, c.Q.Entry), "cfg:"+pathOf("d", rt, ro, c.Q.Entry))
+			}
+		}
+	}
+	svc := be.service()
+	q := mkQuery(c.Q)
+	before := *q
+	res := M{"found": false, "comp": "", "rt": "", "role": "", "entry": "", "raw": ""}
+	get := M{"ok": false, "payload": ""}
+	proc := M{"ok": false, "payload": ""}
+	r, err := svc.ResolveComponentQuery(q)
+	if err == nil && r != nil {
+		res = M{"found": true, "comp": r.Component, "rt": apricotpb.RunType_name[int32(r.RunType)], "role": r.RoleName,
+			"entry": r.EntryKey, "raw": r.Raw()}
+		get = got(svc.GetComponentConfiguration(r))
+		proc = got(svc.GetAndProcessComponentConfiguration(r, map[string]string{}))
+	}
+	direct := got(svc.GetComponentConfiguration(q))
+	b := c.B
+	if b == nil {
+		b = [][]string{}
+	}
+	rec.Emit("Res", "scn", scn, "q", c.Q, "B", b, "res", res, "get", get, "proc", proc, "direct", direct,
+		"qkept", *q == before)
+}
+
+func source(parts []part) string {
+	var b strings.Builder
+	for _, p := range parts {
+		switch p.K {
+		case "lit":
+			t, ok := litStr[p.X]
+			if !ok {
+				fatal("unknown literal %q", p.X)
+			}
+			b.WriteString(t)
+		case "var":
+			b.WriteString("{{ " + p.X + " }}")
+		case "inc":
+			b.WriteString("{% include \"" + siblingName + "\" %}")
+		default:
+			fatal("unknown part kind %q", p.K)
+		}
+	}
+	return b.String()
+}
+
+func doRnd(rec *vtrace.Recorder, scn int, c *tcase, file string) {
+	be := newBackend(file)
+	src := source(c.Parts)
+	sibsrc := ""
+	be.put("c/PHYSICS/r/e", src)
+	if c.HasSib {
+		sibsrc = source(c.Sib)
+		be.put("c/PHYSICS/r/"+siblingName, sibsrc)
+	}
+	be.put("c/ANY/any/"+siblingName, "WRONG-SIBLING") // includes are relative to the entry's own directory
+	svc := be.service()
+	vars := map[string]string{}
+	varsReal := make([][]string, 0, len(c.Vars))
+	for _, v := range c.Vars {
+		val, ok := valStr[v[1]]
+		if !ok {
+			fatal("unknown value %q", v[1])
+		}
+		vars[v[0]] = val
+		varsReal = append(varsReal, []string{v[0], val})
+	}
+	q := &componentcfg.Query{Component: "c", RunType: apricotpb.RunType_PHYSICS, RoleName: "r", EntryKey: "e"}
+	raw := got(svc.GetComponentConfiguration(q))
+	out := got(svc.GetAndProcessComponentConfiguration(q, vars))
+	parts, sib, cv := c.Parts, c.Sib, c.Vars
+	if sib == nil {
+		sib = []part{}
+	}
+	if cv == nil {
+		cv = [][]string{}
+	}
+	rec.Emit("Rnd", "scn", scn, "parts", parts, "sib", sib, "hasSib", c.HasSib, "vars", cv, "varsReal", varsReal,
+		"src", src, "sibsrc", sibsrc, "raw", raw, "out", out)
+}
+
+// measured corner behaviour outside the property's quantifier; reported as observations, never judged
+func doCorners(rec *vtrace.Recorder, file string) {
+	be := newBackend(file)
+	be.put("c/PHYSICS/r/sub/e", "nested")
+	be.put("c/ANY/any/sub", "entry-named-sub")
+	be.put("c/PHYSICS/r/e", "x={{ v }}")
+	be.put("c/PHYSICS/r/u", "{{ strings }}")
+	svc := be.service()
+	one := func(name, qs string, vars map[string]string) {
+		q, err := componentcfg.NewQuery(qs)
 		if err != nil {
+			rec.Emit("Corner", "name", name, "query", qs, "parsed", false)
+			return
+		}
+		m := M{"name": name, "query": qs, "parsed": true, "resolved": "", "getok": false, "procok": false, "payload": ""}
+		if r, err := svc.ResolveComponentQuery(q); err == nil {
+			m["resolved"] = r.Raw()
+			_, gerr := svc.GetComponentConfiguration(r)
+			m["getok"] = gerr == nil
+			if vars != nil {
+				p, perr := svc.GetAndProcessComponentConfiguration(r, vars)
+				m["procok"] = perr == nil
+				if perr == nil {
+					m["payload"] = p
+				}
+			}
+		}
+		rec.EmitMap("Corner", m)
+	}
+	one("folder-shadows-entry", "c/PHYSICS/r/sub", nil)
+	one("trailing-slash", "c/PHYSICS/r/e/", nil)
+	one("null-runtype", "c/NULL/r/e", nil)
+	one("dot-in-entry", "c/PHYSICS/r/config.json", nil)
+	one("non-identifier-variable-name", "c/PHYSICS/r/e", map[string]string{"v": "1", "a-b": "2"})
+	one("variable-named-like-utility", "c/PHYSICS/r/u", map[string]string{"strings": "mine"})
+	one("blank-padded-variable-name", "c/PHYSICS/r/e", map[string]string{" v ": "1"})
+}
+
+func main() {
+	casesPath := flag.String("cases", "", "NDJSON cases (from TLC)")
+	tracePath := flag.String("trace", "", "NDJSON trace to write")
+	corners := flag.Bool("corners", true, "also record the corner-behaviour measurements")
+	flag.Parse()
+	logrus.SetOutput(io.Discard)
+	logrus.SetLevel(logrus.PanicLevel)
+	checkTable()
+
+	in, err := os.Open(*casesPath)
+	if err != nil {
+		fatal("%v", err)
+	}
+	defer in.Close()
+	rec, err := vtrace.New(*tracePath)
+	if err != nil {
+		fatal("%v", err)
+	}
+	tmp, err := os.MkdirTemp("", "c20be")
+	if err != nil {
+		fatal("%v", err)
+	}
+	defer os.RemoveAll(tmp)
+	file := filepath.Join(tmp, "backend.yaml")
+
+	sc := bufio.NewScanner(in)
+	sc.Buffer(make([]byte, 1<<20), 1<<24)
+	n := 0
+	counts := map[string]int{}
+	for sc.Scan() {
+		line := bytes.TrimSpace(sc.Bytes())
+		if len(line) == 0 {
 			continue
 		}
-		fmt.Printf("   raw=%q path=%q abs=%q\n", q.Raw(), q.Path(), q.AbsoluteRaw())
-		r, err := svc.ResolveComponentQuery(q)
-		if err != nil {
-			fmt.Println("   resolve err", err)
-		} else {
-			fmt.Printf("   resolved %q\n", r.Raw())
-			pl, err := svc.GetComponentConfiguration(r)
-			fmt.Printf("   get %q err=%v\n", pl, err)
+		n++
+		var c tcase
+		if err := json.Unmarshal(line, &c); err != nil {
+			fatal("case %d: %v", n, err)
+		}
+		if c.S == nil {
+			c.S = []string{}
+		}
+		counts[c.K]++
+		switch c.K {
+		case "str":
+			doStr(rec, n, &c)
+		case "par":
+			doPar(rec, n, &c)
+		case "res":
+			doRes(rec, n, &c, file)
+		case "rnd":
+			doRnd(rec, n, &c, file)
+		default:
+			fatal("case %d: unknown kind %q", n, c.K)
 		}
 	}
-	for _, t := range []struct {
-		q    string
-		vars map[string]string
-	}{
-		{"c/PHYSICS/r/e", map[string]string{"v": "V"}},
-		{"c/PHYSICS/r/e", map[string]string{}},
-		{"c/PHYSICS/r/e", nil},
-		{"c/PHYSICS/r/e", map[string]string{"v": `["a","b"]<&'`}},
-		{"c/PHYSICS/r/e", map[string]string{"v": "V", "a-b": "x"}},
-		{"c/PHYSICS/r/e", map[string]string{" v ": "V"}},
-		{"c/PHYSICS/r/e", map[string]string{"v": "{{ w }}", "w": "W"}},
-		{"c/PHYSICS/r/q", map[string]string{"v": "V", "w": "W"}},
-		{"c/PHYSICS/r/m", map[string]string{"v": "V"}},
-		{"c/PHYSICS/r/s", map[string]string{"strings": "V"}},
-		{"c/PHYSICS/r/sub/e", map[string]string{"v": "V"}},
-		{"c/PHYSICS/r/zz", map[string]string{"v": "V"}},
-	} {
-		q, _ := componentcfg.NewQuery(t.q)
-		pl, err := svc.GetAndProcessComponentConfiguration(q, t.vars)
-		fmt.Printf("process %q %v -> %q err=%v\n", t.q, t.vars, pl, err)
+	if err := sc.Err(); err != nil {
+		fatal("%v", err)
 	}
-	for _, s := range []string{"a=b", "a=b&c=d", "a=b&a=c", "process=false&a=b", "process=x", "a=", "a-b=[\"x\",\"y\"]", " a=b ", "a=b&", "a==b", "a=b=c", "A=1"} {
-		p, err := componentcfg.NewQueryParameters(s)
-		fmt.Printf("params %q -> %+v err=%v\n", s, p, err)
+	if *corners {
+		doCorners(rec, file)
 	}
-	for _, s := range []string{"c/PHYSICS/r", "c/PHYSICS/r/", "c/PHYSICS/r/e", " c/ANY/any "} {
-		p, err := componentcfg.NewEntriesQuery(s)
-		fmt.Printf("entries %q -> %+v err=%v\n", s, p, err)
+	lines := rec.Lines()
+	if err := rec.Close(); err != nil {
+		fatal("%v", err)
 	}
+	fmt.Printf("cases=%d str=%d par=%d res=%d rnd=%d lines=%d\n", n, counts["str"], counts["par"], counts["res"], counts["rnd"], lines)
 }
